@@ -55,58 +55,35 @@ Fixpoint cut_last (sep : N) (s : bytes) : option (bytes * bytes) :=
               end
   end.
 
-(* one entry: key and reported (name, version); Panic = slice bounds out of range [4:-1] *)
-Definition npm_dep_entry (name version commit : bytes) : outcome (bytes * pkg) :=
-  let alias : outcome (bytes * bytes) :=
+(* one entry: key and reported (name, version).  An "npm:" alias is split at its last '@' only when that '@'
+   lies behind at least one character of the aliased name (index > 4); otherwise name and version are kept *)
+Definition npm_dep_entry (name version commit : bytes) : bytes * pkg :=
+  let '(n, fv) :=
     if has_prefix s_npm version then
       match cut_last AT version with
-      | None => Panic                                              (* detail.Version[4:i] with i = -1 *)
-      | Some (a, b) => Ok (skipn 4 a, b)
+      | Some (a, b) => if (4 <? len_N a) then (skipn 4 a, b) else (name, version)
+      | None => (name, version)
       end
-    else Ok (name, version) in
-  bind alias (fun nf =>
-    let '(n, fv) := nf in
-    if has_prefix s_file version then Ok (n ++ AT :: version, (n, []))
-    else if is_nil commit then Ok (n ++ AT :: version, (n, fv))
-    else Ok (n ++ AT :: commit, (n, []))).
+    else (name, version) in
+  if has_prefix s_file version then (n ++ AT :: version, (n, []))
+  else if is_nil commit then (n ++ AT :: version, (n, fv))
+  else (n ++ AT :: commit, (n, [])).
 
-Fixpoint npm_dep_entries (name : bytes) (d : npm_dep) : outcome (list (bytes * pkg)) :=
+Fixpoint npm_dep_entries (name : bytes) (d : npm_dep) : list (bytes * pkg) :=
   match d with
   | NDep version commit nested =>
-      let inner : outcome (list (bytes * pkg)) :=
-        match nested with
-        | None => Ok []
-        | Some ds =>
-            (fix go (l : list (bytes * npm_dep)) : outcome (list (bytes * pkg)) :=
-               match l with
-               | [] => Ok []
-               | (n, d') :: r =>
-                   match npm_dep_entries n d' with
-                   | Ok es => cons_out es (go r)
-                   | Err e => Err e
-                   | Panic => Panic
-                   end
-               end) ds
-        end in
-      match inner with
-      | Ok es => match npm_dep_entry name version commit with
-                 | Ok e => Ok (es ++ [e])
-                 | Err x => Err x
-                 | Panic => Panic
-                 end
-      | Err e => Err e
-      | Panic => Panic
-      end
+      match nested with
+      | None => []
+      | Some ds =>
+          (fix go (l : list (bytes * npm_dep)) : list (bytes * pkg) :=
+             match l with
+             | [] => []
+             | (n, d') :: r => npm_dep_entries n d' ++ go r
+             end) ds
+      end ++ [npm_dep_entry name version commit]
   end.
-Fixpoint npm_deps_all (ds : list (bytes * npm_dep)) : outcome (list (bytes * pkg)) :=
-  match ds with
-  | [] => Ok []
-  | (n, d) :: r => match npm_dep_entries n d with
-                   | Ok es => cons_out es (npm_deps_all r)
-                   | Err e => Err e
-                   | Panic => Panic
-                   end
-  end.
+Definition npm_deps_all (ds : list (bytes * npm_dep)) : list (bytes * pkg) :=
+  flat_map (fun nd => npm_dep_entries (fst nd) (snd nd)) ds.
 (* same key -> same reported pair, so the map is the entries with duplicate keys removed *)
 Definition dedup_entries (es : list (bytes * pkg)) : list pkg :=
   map snd (fold_left (fun d e => amap_set (fst e) (snd e) d) es []).
@@ -116,11 +93,7 @@ Record npm_st := { ns_packages : option (list npm_pkg); ns_dependencies : list (
 Definition extract_packagelock (st : npm_st) : outcome (list pkg) :=
   match ns_packages st with
   | Some ps => Ok (npm_packages ps)
-  | None => match npm_deps_all (ns_dependencies st) with
-            | Ok es => Ok (dedup_entries es)
-            | Err e => Err e
-            | Panic => Panic
-            end
+  | None => Ok (dedup_entries (npm_deps_all (ns_dependencies st)))
   end.
 
 (* records for the packages map: install location prefix (empty, or ending in '/'), package name
